@@ -26,6 +26,7 @@ type Harness struct {
 	StepLimitIsViolation bool     // the harness asserts termination within MaxSteps
 	ExitIsViolation      bool     // os.Exit reaching the top is a violation
 	MaxSteps             int64    // per path (0: default)
+	NativeRetries        int      // repeat the native replay up to n times (runtime-chosen schedules such as map order)
 	AllowInconclusive    []string // substrings of inconclusive reasons that are tolerated (stated in evidence)
 	Note                 string
 }
@@ -521,6 +522,15 @@ func (r *runner) run1(ev *evidence) int {
 					continue
 				}
 				confirmed, how := r.replay(h, args, v)
+				// schedules the Go runtime picks itself (map iteration order): the model's order cannot
+				// be imposed on the native run, so the native run is repeated until the runtime picks one
+				// that shows the difference
+				for try := 1; !confirmed && try < h.NativeRetries; try++ {
+					confirmed, how = r.replay(h, args, v)
+					if confirmed {
+						how += fmt.Sprintf(" (native run %d of up to %d; the Go runtime picks the map order)", try+1, h.NativeRetries)
+					}
+				}
 				validated++
 				if confirmed {
 					nviol++
